@@ -235,6 +235,7 @@ def run_check(prop, tier, seed, a, t0):
     # known findings whose witness no longer fails are not reported (a fixed defect needs no line)
     # a failed obligation for which the verifier gave no replayable input: name the concrete witnesses the run-time
     # evaluation of the same property found in this run (the line itself still ends with no-failing-input-found)
+    settle_internal(violations, undecided)
     bounded_hits = [v for v in violations if v.get("bounded")]
     for v in violations:
         if "obligation" in v and "no-failing-input-found" in v["line"]:
@@ -394,7 +395,26 @@ def handle_failed(prop, u, r, oid, known, violations, undecided, known_lines, ti
     line = "VIOLATION property=%s replay=%s" % (prop, os.path.join(ROOT, rel))
     if not confirmed:
         line += " obligation=%s no-failing-input-found" % oid.replace(" ", "_")
-    violations.append({"line": line, "obligation": oid})
+    violations.append({"line": line, "obligation": oid, "unit": unit_key(u),
+                       "internal": (not confirmed) and r.vc.kind in INTERNAL})
+
+
+def settle_internal(violations, undecided):
+    """A failed loop-invariant / measure / callee-precondition obligation shows that the PROOF no longer goes through.  It is
+    reported as a violation only when something speaks for a broken property: a postcondition / raises / frame / yield /
+    abandon clause of the same function fails too, or the run-time evaluation of the property found a failing input in
+    this run.  Otherwise it is undecided (exit 2): the proof has to be redone."""
+    top_units = {v.get("unit") for v in violations if v.get("obligation") and not v.get("internal")}
+    has_bounded = any(v.get("bounded") for v in violations)
+    keep = []
+    for v in violations:
+        if v.get("internal") and not has_bounded and v.get("unit") not in top_units:
+            undecided.append((v["obligation"], "an invariant / measure / callee precondition of the proof is no longer provable (sat), "
+                              "but no postcondition, raises, frame or yield clause of the function fails and the run-time "
+                              "evaluation of the property found no failing input: the proof has to be redone"))
+        else:
+            keep.append(v)
+    violations[:] = keep
 
 
 def handle_bounded_failure(prop, f, known, violations, known_lines):
